@@ -105,6 +105,9 @@ def pymod (o : Ops α) (x y : α) : α :=
   else
     o.zeroLike y
 
+/-- `correct_position_entry` of the setting classes: `r = x % L; r if r != L else 0.0` -/
+def pywrap (o : Ops α) (x L : α) : α := let r := pymod o x L; if r != L then r else o.ofInt 0
+
 /-- `divmod(x, 1.0)` as CPython computes it (`float_divmod` specialised to divisor 1.0). -/
 def pydivmod1 (o : Ops α) (x : α) : α × α :=
   let one := o.ofInt 1
